@@ -872,7 +872,16 @@ TIMERS_C15 = ("reused-job-misses-rows",)
 
 
 def part_fetch_diff(ctx):
-    """the byte budget of one fetch (GetSubscriptionMessages) against Streamer.fetch"""
+    return _part_fetch_diff(ctx, ("fetch-differs", "skipped-delivery-touched"))
+
+
+def part_fetch_untouched(ctx):
+    return _part_fetch_diff(ctx, ("skipped-delivery-touched",))
+
+
+def _part_fetch_diff(ctx, own):
+    """the byte budget of one fetch (GetSubscriptionMessages) against Streamer.fetch; deliveries fetched
+    but not handed out keep their row (no attempt is counted for them)"""
     p = Part("fetch-byte-budget")
     d = os.path.join(ctx["work"], "fetchdiff")
     rc, out = harness(["fetch-diff", "-seed", str(ctx["seed"]), "-n", "30" if QUICK(ctx) else "400", "-out", d], timeout=3000)
@@ -886,11 +895,39 @@ def part_fetch_diff(ctx):
     p.samples = info["samples"]
     p.info = {k: info[k] for k in ("fetches", "non_empty", "with_skipped_candidates", "oversize_alone")}
 
+    if info.get("touched") and "skipped-delivery-touched" in own:
+        p.violation("skipped-delivery-touched", info["touched"][0], dict(kind="fetch-diff", touched=info["touched"][:10], seed=ctx["seed"]))
+
     def bad(f, n, lst):
+        if "fetch-differs" not in own:
+            return
         idx = [int(x) for x in re.findall(r"(\d+)%nat", lst)]
         p.violation("fetch-differs", "GetSubscriptionMessages handed out different deliveries than Streamer.fetch for (candidates, MaxMessages, MaxBytes, strict, returned) = %s" %
                     [info["cases"][i] for i in idx[:3]], dict(kind="fetch-diff", cases=[info["cases"][i] for i in idx[:10]], seed=ctx["seed"]))
     _eval_dir(p, d, "fetch_diff.v", ["bad"], bad)
+    return p
+
+
+def part_pull_race(ctx):
+    """two pullers of one subscription, the second one run in full at each transaction boundary of the first"""
+    p = Part("pull-race")
+    d = os.path.join(ctx["work"], "pullrace")
+    rc, out = harness(["pull-race", "-out", d], timeout=600)
+    if rc != 0:
+        p.violation("harness-failed", "pull-race failed: " + out[-1500:], dict(log=out[-3000:]), found_input=False)
+        return p
+    res = json.load(open(os.path.join(d, "pullrace.json")))["results"]
+    p.evaluations = len(res)
+    p.traces = len(res)
+    p.nontrivial = sum(1 for r in res if r["b_ran"])
+    p.samples = res[:2]
+    seen = set()
+    for r in res:
+        for pr in r.get("problems") or []:
+            key = pr.split(":")[0]
+            if key not in seen:
+                seen.add(key)
+                p.violation(key, "puller B run after commit %d of puller A's call: %s" % (r["after_commit"], pr), dict(kind="pull-race", result=r))
     return p
 
 
@@ -1167,15 +1204,15 @@ CHECKS = {
     "C04": dict(
         props=["C04", "C04backoff", "Tie"],
         parts=[engine_part("delivery", 40, 600, 45, claim_c04, ["redelivery", "modack_effective", "nack_rescheduled", "pull_nonempty"], monitors=("handed-out-before-due",)), part_backoff,
-               timers_part(TIMERS_C04), stream_part(STREAM_C04)],
-        rule="[+ real-time part: a pull already waiting returns a message when its 330 ms retry deadline passes while another message's deadline was extended to 600 s] engine profile delivery (retry policies absent/min/max/both from 200 ms to 100 s, clock jumps to lease deadline -/+ margin) + grid of NextDelayFor over policies x attempts; "
+               timers_part(TIMERS_C04), stream_part(STREAM_C04), part_pull_race],
+        rule="[+ pull race: a second puller run in full at each transaction boundary of the first one never gets a message the first one is handed] [+ real-time part: a pull already waiting returns a message when its 330 ms retry deadline passes while another message's deadline was extended to 600 s] engine profile delivery (retry policies absent/min/max/both from 200 ms to 100 s, clock jumps to lease deadline -/+ margin) + grid of NextDelayFor over policies x attempts; "
              "non-trivial = redeliveries, effective deadline changes, nacks",
         assumptions=BUS_ASSUME + [T_FLOAT, "concurrent pullers: interleavings are at transaction granularity (serialisable database), covered by the history theorems; not exhibited on the code here"]),
     "C06": dict(
         props=["C06", "Tie"],
         parts=[engine_part("delivery", 40, 600, 45, claim_c06, ["pull_deadlettered", "nack_deadlettered", "job_effective:DeadLetterSweep"], monitors=("attempts-exceeded",)),
-               services_part(("DeadLetterSweep",), False), part_dead_letter_faults],
-        rule="[+ background services part: the dead-letter service's first run = one model sweep step] engine profile delivery with dead-letter policies N in 1..4 and default, topologies from generated topics (no subscriber, several, filtered, ordered, deleted topic, self loop); "
+               services_part(("DeadLetterSweep",), False), part_dead_letter_faults, part_fetch_untouched],
+        rule="[+ fetch part: a delivery fetched but not handed out (byte budget, limit) keeps its attempt count] [+ background services part: the dead-letter service's first run = one model sweep step] engine profile delivery with dead-letter policies N in 1..4 and default, topologies from generated topics (no subscriber, several, filtered, ordered, deleted topic, self loop); "
              "non-trivial = deliveries dead-lettered by pull / nack / sweep",
         assumptions=BUS_ASSUME),
     "C05": dict(
